@@ -323,7 +323,7 @@ def run_job(job, scratch, cover_pass=False):
         cur = nxt
         step += 1
     outjson = os.path.join(wd, "out.json")
-    cmd = ["cbmc", "--json-ui", "--object-bits", "12"]
+    cmd = ["cbmc", "--json-ui", "--object-bits", "12"] if "--object-bits" not in job.cbmc else ["cbmc", "--json-ui"]
     if job.safety and not cover_pass:
         cmd += SAFETY
     if job.unwind is not None:
